@@ -1,4 +1,5 @@
 import BindgenModel.Model.CDecl
+import BindgenModel.Model.CDeclVariadic
 import BindgenModel.Lemmas.CDecl
 /-! # C16 — static-function wrappers compile and behave like the wrapped functions
 
@@ -19,7 +20,17 @@ Proved: (1) `C16_wrapper_shape`, `C16_one_definition_per_wrapped_function`,
 `C16_link_matches_wrapper_partial` (hypothesis canonical name = name), `C16_static_wrapped_partial`
 (hypothesis: symbol name = Rust name); (2) `C16_decl_roundtrip_partial` / `C16_ret_roundtrip_partial`
 for both forms of the `Array` arm, under `defect a ctx t = none`; (3) `C16_variadic_gets_no_binding`.
-Every excluded region has a `C16_fails_on_…` lemma with a concrete witness. -/
+Every excluded region has a `C16_fails_on_…` lemma with a concrete witness.
+
+The `wrap_as_variadic` path (`Model/CDeclVariadic.lean`; last section of this file), unbounded over
+parameter lists: the call forwards argument k as parameter k with `ap` at the index of the pruned
+`va_list` (`C16_va_forwarded_positions`, `C16_va_forwarded_in_order`, `C16_va_forwarded_named`), the
+wrapper's own parameters are the original ones minus the `va_list`, order kept
+(`C16_va_params_pruned`), `va_start` names the last of them (`C16_va_start_names_last`); the code
+panics exactly when none remains (`C16_va_panics_iff`), which `wrap_as_variadic_fn` never lets happen
+(`C16_va_codegen_guards_unwrap`); without a callback answer nothing changes (`C16_va_none_unchanged`,
+`C16_va_codegen_without_callback_unchanged`).  Excluded regions with witnesses: a remaining parameter
+called `ap` / `ret` (`C16_va_fails_on_name_clash`), no `<stdarg.h>` (`C16_va_fails_without_stdarg`). -/
 namespace BindgenModel.CDecl
 open BindgenModel.Generated.SerializeArms
 
@@ -415,5 +426,439 @@ theorem C16_golden_lines (a : Bool) :
         params := .cons (some ['a', 'r', 'g']) (.tref false (.ptr false (.ptr true (.base true (.int .Int))))) .nil }
       = some ("int tq__extern(const int *const *arg) { return tq(arg); }\n".toList) := by
   cases a <;> exact ⟨by rfl, by rfl⟩
+
+/-! ## the `wrap_as_variadic` path (`Model/CDeclVariadic.lean`) -/
+
+theorem paramTypes_prune : ∀ (ps : Params) (i : Nat), paramTypes (pruneParams ps i) = (paramTypes ps).eraseIdx i
+  | .nil, _ => by simp [pruneParams, paramTypes]
+  | .cons _ _ r, 0 => by simp [pruneParams, paramTypes]
+  | .cons n t r, i + 1 => by simp [pruneParams, paramTypes, paramTypes_prune r i]
+
+theorem paramNames_prune : ∀ (ps : Params) (i : Nat), paramNames (pruneParams ps i) = (paramNames ps).eraseIdx i
+  | .nil, _ => by simp [pruneParams, paramNames]
+  | .cons _ _ r, 0 => by simp [pruneParams, paramNames]
+  | .cons n t r, i + 1 => by simp [pruneParams, paramNames, paramNames_prune r i]
+
+theorem insertAt_some : ∀ (l : List Name) (i : Nat) (x : Name), i ≤ l.length → insertAt l i x = some (l.insertIdx i x)
+  | l, 0, x, _ => by simp [insertAt]
+  | [], i + 1, x, h => by simp at h
+  | y :: l, i + 1, x, h => by
+    simp [insertAt, insertAt_some l i x (by simpa using h)]
+
+theorem insertAt_none : ∀ (l : List Name) (i : Nat) (x : Name), l.length < i → insertAt l i x = none
+  | l, 0, x, h => by simp at h
+  | [], i + 1, x, _ => by simp [insertAt]
+  | y :: l, i + 1, x, h => by
+    simp [insertAt, insertAt_none l i x (by simpa using h)]
+
+/-- when the pruned parameter has a name, the names of the remaining parameters are the original names
+    minus that one (the `arg_N` numbering of unnamed parameters is not disturbed) -/
+theorem argNames_prune_named : ∀ (ps : Params) (i k : Nat) (n : Name), (paramNames ps)[i]? = some (some n) →
+    argNames (pruneParams ps i) k = (argNames ps k).eraseIdx i
+  | .nil, _, _, _, h => by simp [paramNames] at h
+  | .cons (some m) _ r, 0, k, n, _ => by simp [pruneParams, argNames]
+  | .cons none _ r, 0, k, n, h => by simp [paramNames] at h
+  | .cons (some m) _ r, i + 1, k, n, h => by
+    simp [pruneParams, argNames, argNames_prune_named r i k n (by simpa [paramNames] using h)]
+  | .cons none _ r, i + 1, k, n, h => by
+    simp [pruneParams, argNames, argNames_prune_named r i (k + 1) n (by simpa [paramNames] using h)]
+
+/-- a named parameter other than the pruned one keeps its name and moves down by one iff it came after -/
+theorem argNames_prune_keeps : ∀ (ps : Params) (i k j : Nat) (n : Name), (paramNames ps)[j]? = some (some n) → j ≠ i →
+    (argNames (pruneParams ps i) k)[if j < i then j else j - 1]? = some n
+  | .nil, _, _, _, _, h, _ => by simp [paramNames] at h
+  | .cons _ _ r, 0, k, 0, n, _, hne => by simp at hne
+  | .cons m _ r, 0, k, j + 1, n, h, _ => by
+    simpa [pruneParams] using argNames_named r k j n (by simpa [paramNames] using h)
+  | .cons (some m) _ r, i + 1, k, 0, n, h, _ => by simpa [pruneParams, argNames, paramNames] using h
+  | .cons none _ r, i + 1, k, 0, n, h, _ => by simp [paramNames] at h
+  | .cons (some m) _ r, i + 1, k, j + 1, n, h, hne => by
+    have ih := argNames_prune_keeps r i k j n (by simpa [paramNames] using h) (by omega)
+    by_cases hj : j < i
+    · simpa [pruneParams, argNames, hj] using ih
+    · have : 0 < j := by omega
+      have e : j + 1 - 1 = (j - 1) + 1 := by omega
+      simp only [hj, if_false] at ih
+      simp [pruneParams, argNames, hj, e, ih]
+  | .cons none _ r, i + 1, k, j + 1, n, h, hne => by
+    have ih := argNames_prune_keeps r i (k + 1) j n (by simpa [paramNames] using h) (by omega)
+    by_cases hj : j < i
+    · simpa [pruneParams, argNames, hj] using ih
+    · have : 0 < j := by omega
+      have e : j + 1 - 1 = (j - 1) + 1 := by omega
+      simp only [hj, if_false] at ih
+      simp [pruneParams, argNames, hj, e, ih]
+
+/-- what `vaWrapperDef` returns, spelled out (the code as the table records it: `insert` at the index) -/
+theorem vaWrapperDef_insert_some (suffix : Name) (f : Fn) (idx : Nat) (w : VaWrapperDef)
+    (h : vaWrapperDef .insertAtVaListIdx suffix f idx = some w) :
+    w.defName = f.name ++ suffix ∧ w.callee = f.name ∧ w.ret = f.ret ∧ w.returns = !isVoid f.ret ∧
+    w.params = (argNames (pruneParams f.params idx) 0).zip (paramTypes (pruneParams f.params idx)) ∧
+    (argNames (pruneParams f.params idx) 0).getLast? = some w.vaStartArg ∧
+    insertAt (argNames (pruneParams f.params idx) 0) idx fragVaAp = some w.forwarded := by
+  simp only [vaWrapperDef, placeAp] at h
+  split at h
+  · next last fwd hl hf =>
+    injection h with h
+    subst h
+    exact ⟨rfl, rfl, rfl, rfl, rfl, hl, hf⟩
+  · simp at h
+
+/-- (b) The wrapper's own parameter list is the original one minus the `va_list` parameter, order
+    preserved: types, given names, and the names the wrapper declares. -/
+theorem C16_va_params_pruned (suffix : Name) (f : Fn) (idx : Nat) (w : VaWrapperDef)
+    (h : vaWrapperDef .insertAtVaListIdx suffix f idx = some w) :
+    w.params.map (·.2) = (paramTypes f.params).eraseIdx idx ∧
+    w.params.map (·.1) = argNames (pruneParams f.params idx) 0 ∧
+    paramNames (pruneParams f.params idx) = (paramNames f.params).eraseIdx idx ∧
+    (∀ (j : Nat) (n : Name), (paramNames f.params)[j]? = some (some n) → j ≠ idx →
+      (w.params.map (·.1))[if j < idx then j else j - 1]? = some n) := by
+  obtain ⟨_, _, _, _, hp, _, _⟩ := vaWrapperDef_insert_some suffix f idx w h
+  have hl := argNames_length (pruneParams f.params idx) 0
+  have h1 : w.params.map (·.1) = argNames (pruneParams f.params idx) 0 := by
+    rw [hp, List.map_fst_zip (by omega)]
+  refine ⟨?_, h1, paramNames_prune _ _, fun j n hj hne => ?_⟩
+  · rw [hp, List.map_snd_zip (by omega), paramTypes_prune]
+  · rw [h1]
+    exact argNames_prune_keeps f.params idx 0 j n hj hne
+
+/-- (a) The forwarded argument list has one entry per parameter of the wrapped function, `ap` sits at
+    the index the `va_list` parameter had, and the other entries are the wrapper's own parameters in
+    order: argument k of the call is parameter k. -/
+theorem C16_va_forwarded_positions (suffix : Name) (f : Fn) (idx : Nat) (w : VaWrapperDef)
+    (h : vaWrapperDef .insertAtVaListIdx suffix f idx = some w) (hi : idx < (paramTypes f.params).length) :
+    w.forwarded.length = (paramTypes f.params).length ∧
+    w.forwarded[idx]? = some fragVaAp ∧
+    w.forwarded.eraseIdx idx = w.params.map (·.1) := by
+  obtain ⟨_, _, _, _, _, _, hf⟩ := vaWrapperDef_insert_some suffix f idx w h
+  have h1 := (C16_va_params_pruned suffix f idx w h).2.1
+  have hl : (argNames (pruneParams f.params idx) 0).length = (paramTypes f.params).length - 1 := by
+    rw [argNames_length, paramTypes_prune, List.length_eraseIdx]
+    simp [hi]
+  have hle : idx ≤ (argNames (pruneParams f.params idx) 0).length := by omega
+  rw [insertAt_some _ _ _ hle] at hf
+  injection hf with hf
+  rw [← hf]
+  refine ⟨?_, ?_, ?_⟩
+  · rw [List.length_insertIdx]
+    simp [hle]
+    omega
+  · simp [List.getElem?_insertIdx_self, hle]
+  · rw [h1, List.eraseIdx_insertIdx_self]
+
+/-- (a) With `ap` replaced by the name of the pruned parameter, the forwarded list IS the wrapped
+    function's own parameter-name list (what the plain wrapper forwards), in order. -/
+theorem C16_va_forwarded_in_order (suffix : Name) (f : Fn) (idx : Nat) (w : VaWrapperDef) (n : Name)
+    (h : vaWrapperDef .insertAtVaListIdx suffix f idx = some w)
+    (hn : (paramNames f.params)[idx]? = some (some n)) :
+    w.forwarded.set idx n = argNames f.params 0 ∧ argNames f.params 0 = (wrapperDef suffix f).forwarded := by
+  obtain ⟨_, _, _, _, _, _, hf⟩ := vaWrapperDef_insert_some suffix f idx w h
+  have hnm := argNames_named f.params 0 idx n hn
+  have hlt : idx < (argNames f.params 0).length := by
+    have := List.getElem?_eq_some_iff.mp hnm
+    exact this.1
+  rw [argNames_prune_named f.params idx 0 n hn] at hf
+  have hle : idx ≤ ((argNames f.params 0).eraseIdx idx).length := by
+    rw [List.length_eraseIdx]
+    simp [hlt]
+    omega
+  rw [insertAt_some _ _ _ hle] at hf
+  injection hf with hf
+  rw [← hf]
+  refine ⟨?_, rfl⟩
+  apply List.ext_getElem?
+  intro k
+  by_cases hk : k = idx
+  · subst hk
+    rw [hnm]
+    simp [List.getElem?_set, List.length_insertIdx, hle]
+    omega
+  · rw [List.getElem?_set_ne (Ne.symm hk)]
+    rw [List.getElem?_insertIdx]
+    by_cases hlt' : k < idx
+    · simp [hlt', List.getElem?_eraseIdx]
+    · have hgt : idx < k := by omega
+      have e : k - 1 + 1 = k := by omega
+      simp [hlt', hk, List.getElem?_eraseIdx, show ¬ (k - 1 < idx) by omega, e]
+
+/-- (a) A named parameter other than the `va_list` is forwarded at its own position, whether or not
+    the `va_list` parameter itself has a name. -/
+theorem C16_va_forwarded_named (suffix : Name) (f : Fn) (idx : Nat) (w : VaWrapperDef) (j : Nat) (n : Name)
+    (h : vaWrapperDef .insertAtVaListIdx suffix f idx = some w) (hi : idx < (paramTypes f.params).length)
+    (hj : (paramNames f.params)[j]? = some (some n)) (hne : j ≠ idx) :
+    w.forwarded[j]? = some n := by
+  obtain ⟨_, _, hE⟩ := C16_va_forwarded_positions suffix f idx w h hi
+  have hk := (C16_va_params_pruned suffix f idx w h).2.2.2 j n hj hne
+  rw [← hE, List.getElem?_eraseIdx] at hk
+  by_cases hlt : j < idx
+  · simpa [hlt] using hk
+  · have hgt : idx < j := by omega
+    have e : j - 1 + 1 = j := by omega
+    simpa [hlt, show ¬ (j - 1 < idx) by omega, e] using hk
+
+/-- (c) `va_start` names the last remaining parameter of the wrapper. -/
+theorem C16_va_start_names_last (suffix : Name) (f : Fn) (idx : Nat) (w : VaWrapperDef)
+    (h : vaWrapperDef .insertAtVaListIdx suffix f idx = some w) :
+    (w.params.map (·.1)).getLast? = some w.vaStartArg ∧ w.params ≠ [] := by
+  obtain ⟨_, _, _, _, _, hl, _⟩ := vaWrapperDef_insert_some suffix f idx w h
+  have h1 := (C16_va_params_pruned suffix f idx w h).2.1
+  refine ⟨by rw [h1]; exact hl, ?_⟩
+  intro he
+  rw [he] at h1
+  rw [← h1] at hl
+  simp at hl
+
+/-- (c) The explicit precondition: the code panics (`args.last().unwrap()` on an empty list, or
+    `Vec::insert` past the end) exactly when no parameter remains or the index is past the remaining
+    ones.  For an index inside the list that is: the `va_list` is the only parameter. -/
+theorem C16_va_panics_iff (suffix : Name) (f : Fn) (idx : Nat) :
+    vaWrapperDef .insertAtVaListIdx suffix f idx = none ↔
+      (paramTypes (pruneParams f.params idx) = [] ∨ (paramTypes (pruneParams f.params idx)).length < idx) := by
+  have hl := argNames_length (pruneParams f.params idx) 0
+  simp only [vaWrapperDef, placeAp]
+  constructor
+  · intro h
+    split at h
+    · simp at h
+    · next hno =>
+      by_cases he : paramTypes (pruneParams f.params idx) = []
+      · exact .inl he
+      · right
+        have hne : argNames (pruneParams f.params idx) 0 ≠ [] := by
+          intro h0
+          rw [h0] at hl
+          exact he (List.eq_nil_of_length_eq_zero hl.symm)
+        obtain ⟨last, hlast⟩ : ∃ x, (argNames (pruneParams f.params idx) 0).getLast? = some x := by
+          cases hg : (argNames (pruneParams f.params idx) 0).getLast? with
+          | none => exact absurd (List.getLast?_eq_none_iff.mp hg) hne
+          | some x => exact ⟨x, rfl⟩
+        by_cases hle : idx ≤ (argNames (pruneParams f.params idx) 0).length
+        · exact absurd (insertAt_some _ _ fragVaAp hle) (by
+            intro hs
+            exact hno last _ hlast hs)
+        · omega
+  · intro h
+    split
+    · next last fwd hlast hf =>
+      rcases h with he | hlt
+      · have : argNames (pruneParams f.params idx) 0 = [] := by
+          apply List.eq_nil_of_length_eq_zero
+          rw [hl, he]
+          rfl
+        rw [this] at hlast
+        simp at hlast
+      · rw [insertAt_none _ _ _ (by omega)] at hf
+        simp at hf
+    · rfl
+
+theorem trueIdxs_ge : ∀ (bs : List Bool) (i j : Nat), j ∈ trueIdxs bs i → i ≤ j ∧ j < i + bs.length ∧ bs[j - i]? = some true
+  | [], _, _, h => by simp [trueIdxs] at h
+  | b :: r, i, j, h => by
+    simp only [trueIdxs] at h
+    split at h
+    · next hb =>
+      rcases List.mem_cons.mp h with rfl | h
+      · simp [hb]
+      · obtain ⟨h1, h2, h3⟩ := trueIdxs_ge r (i + 1) j h
+        have e : j - i = (j - (i + 1)) + 1 := by omega
+        refine ⟨by omega, by simp; omega, ?_⟩
+        rw [e]
+        simpa using h3
+    · obtain ⟨h1, h2, h3⟩ := trueIdxs_ge r (i + 1) j h
+      have e : j - i = (j - (i + 1)) + 1 := by omega
+      refine ⟨by omega, by simp; omega, ?_⟩
+      rw [e]
+      simpa using h3
+
+theorem trueIdxs_complete : ∀ (bs : List Bool) (i k : Nat), bs[k]? = some true → (i + k) ∈ trueIdxs bs i
+  | [], _, _, h => by simp at h
+  | b :: r, i, 0, h => by
+    have : b = true := by simpa using h
+    simp [trueIdxs, this]
+  | b :: r, i, k + 1, h => by
+    have ih := trueIdxs_complete r (i + 1) k (by simpa using h)
+    have e : i + (k + 1) = i + 1 + k := by omega
+    simp only [trueIdxs]
+    split
+    · exact List.mem_cons_of_mem _ (e ▸ ih)
+    · exact e ▸ ih
+
+/-- `wrap_as_variadic_fn` answers only for signatures with more arguments than the bound of the
+    table, of which exactly one walks to `__builtin_va_list`, and only with the callback's name. -/
+theorem C16_va_decision (chains : List TyChain) (cb : Option Name) (w : WrapVa)
+    (h : wrapAsVariadicFn chains cb = some w) :
+    vaMaxArgsNeverWrapped < chains.length ∧ w.idx < chains.length ∧ cb = some w.newName ∧
+    (∀ k, (chains[k]?.map reachesVaList) = some true ↔ k = w.idx) := by
+  simp only [wrapAsVariadicFn] at h
+  split at h
+  · simp at h
+  · next hlen =>
+    split at h
+    · next i hi =>
+      cases cb with
+      | none => simp at h
+      | some n =>
+        simp only [Option.map_some, Option.some.injEq] at h
+        subst h
+        have hmem : i ∈ trueIdxs (chains.map reachesVaList) 0 := by rw [hi]; simp
+        obtain ⟨_, h2, h3⟩ := trueIdxs_ge _ 0 i hmem
+        refine ⟨by omega, by simpa using h2, rfl, fun k => ⟨fun hk => ?_, fun hk => ?_⟩⟩
+        · have := trueIdxs_complete (chains.map reachesVaList) 0 k (by simpa using hk)
+          rw [hi] at this
+          simpa using this
+        · subst hk
+          simpa using h3
+    · simp at h
+
+/-- (c) `Function::codegen` guards the `unwrap`: whenever `wrap_as_variadic_fn` answers for the
+    argument list of `f`, at least one parameter remains and the index is in range, so
+    `Function::serialize` does not panic.  (Uses the bound recorded in the generated table.) -/
+theorem C16_va_codegen_guards_unwrap (suffix : Name) (f : Fn) (chains : List TyChain) (cb : Option Name) (w : WrapVa)
+    (hlen : chains.length = (paramTypes f.params).length)
+    (h : wrapAsVariadicFn chains cb = some w) :
+    (vaWrapperDef .insertAtVaListIdx suffix f w.idx).isSome = true := by
+  obtain ⟨h1, h2, _, _⟩ := C16_va_decision chains cb w h
+  have hb : vaMaxArgsNeverWrapped = 1 := by decide
+  cases hv : vaWrapperDef .insertAtVaListIdx suffix f w.idx with
+  | some _ => rfl
+  | none =>
+    have := (C16_va_panics_iff suffix f w.idx).mp hv
+    rw [paramTypes_prune] at this
+    rcases this with he | hlt
+    · have hl := congrArg List.length he
+      rw [List.length_eraseIdx] at hl
+      simp [← hlen, h2] at hl
+      omega
+    · rw [List.length_eraseIdx] at hlt
+      simp [← hlen, h2] at hlt
+      omega
+
+/-- the only parameter being the `va_list` is where `Function::serialize` alone would panic -/
+theorem C16_va_panics_on_sole_va_list :
+    vaWrapperDef .insertAtVaListIdx ['_', '_', 'x'] { name := nF, ret := wInt, params := .cons (some ['v']) (.base false (.named vaBuiltinName)) .nil } 0 = none ∧
+    wrapAsVariadicFn [[(some vaBuiltinName, true)]] (some ['g']) = none := by
+  decide
+
+/-- (d) Without a `WrapAsVariadic` the text is the plain wrapper's. -/
+theorem C16_va_none_unchanged (a : Bool) (pl : ApPlacement) (suffix : Name) (f : Fn) :
+    wrapperTextV a pl suffix f none = (match wrapperText a suffix f with
+      | some t => .ok t
+      | none => .error) := rfl
+
+/-- (d) Without a callback answer (or with none / several `va_list`s) the binding is the one
+    `codegenFn` decides: same identifier, link name and wrapping, every parameter kept. -/
+theorem C16_va_codegen_without_callback_unchanged (wrap : Bool) (suffix : Name) (f : FnInfo) (chains : List TyChain) (cb : Option Name)
+    (h : wrapAsVariadicFn chains cb = none) :
+    codegenFnV wrap suffix f chains cb = (codegenFn wrap suffix f).map fun b =>
+      { ident := b.ident, link := b.link, wrapped := b.wrapped, va := none, cVariadic := f.variadic,
+        args := List.range chains.length } := by
+  simp only [codegenFnV, h]
+  cases codegenFn wrap suffix f with
+  | none => rfl
+  | some b => simp
+
+/-- The binding of a function wrapped as variadic: called `new_name`, linked to `canonical ++ suffix`
+    like any wrapped function, variadic, with every parameter but the `va_list` one. -/
+theorem C16_va_binding (suffix : Name) (f : FnInfo) (chains : List TyChain) (cb : Option Name) (w : WrapVa) (b : Binding)
+    (hb : codegenFn true suffix f = some b) (hw : b.wrapped = true) (hv : f.variadic = false)
+    (h : wrapAsVariadicFn chains cb = some w) :
+    codegenFnV true suffix f chains cb = some
+      { ident := w.newName, link := some (f.canonical ++ suffix), wrapped := true, va := some w, cVariadic := true,
+        args := (List.range chains.length).filter (· != w.idx) } := by
+  have hl : b.link = some (f.canonical ++ suffix) := by
+    simp only [codegenFn] at hb
+    split at hb
+    · simp at hb
+    · split at hb
+      · simp at hb
+      · injection hb with hb
+        subst hb
+        simp only at hw
+        simp [hw]
+  simp only [codegenFnV, hb, hw, hv, h, hl]
+  simp only [Bool.not_false, Bool.and_self, if_true, Option.isSome_some, Bool.or_false, Option.map_some]
+  congr 2
+
+/-- a variadic static function is never handed to `wrap_as_variadic_fn` (it gets no binding at all) -/
+theorem C16_va_variadic_static_no_binding (wrap : Bool) (suffix : Name) (f : FnInfo) (chains : List TyChain) (cb : Option Name)
+    (hi : f.internal = true) (hv : f.variadic = true) : codegenFnV wrap suffix f chains cb = none := by
+  simp [codegenFnV, C16_variadic_gets_no_binding wrap suffix f hi hv]
+
+/-! ### the code as it is in /repo now -/
+
+/-- the generated table: `ap` is inserted at the index the `va_list` had -/
+theorem C16_table_va_placement : vaApPlacement = .insertAtVaListIdx := by decide
+
+/-- (a) for the code as it is now -/
+theorem C16_va_forwarded_in_order_now (suffix : Name) (f : Fn) (idx : Nat) (w : VaWrapperDef) (n : Name)
+    (h : vaWrapperDef vaApPlacement suffix f idx = some w)
+    (hn : (paramNames f.params)[idx]? = some (some n)) :
+    w.forwarded.set idx n = argNames f.params 0 :=
+  (C16_va_forwarded_in_order suffix f idx w n (C16_table_va_placement ▸ h) hn).1
+
+/-- witness for the other placement (`args.push("ap")`): `int f(int a, va_list v, void *p)` is called as
+    `f(a, p, ap)` — `p` is passed as the `va_list` and `ap` as `p`; both are pointers, so C accepts it -/
+theorem C16_va_push_misorders :
+    let f : Fn := { name := nF, ret := wInt,
+                    params := .cons (some nA) wInt (.cons (some ['v']) (.base false (.named ['v', 'a', '_', 'l', 'i', 's', 't']))
+                      (.cons (some nP) (.ptr false (.base false .void)) .nil)) }
+    (vaWrapperDef .pushLast ['_', '_', 'x'] f 1).map (·.forwarded) = some [nA, nP, fragVaAp] ∧
+    (vaWrapperDef .insertAtVaListIdx ['_', '_', 'x'] f 1).map (·.forwarded) = some [nA, fragVaAp, nP] ∧
+    argNames f.params 0 = [nA, ['v'], nP] := by
+  decide
+
+/-- fragments of the `wrap_as_variadic` path and the bound / name of `wrap_as_variadic_fn` -/
+theorem C16_table_va_fragments :
+    fragIndent = [' ', ' ', ' ', ' '] ∧ fragVaOpen = [',', ' ', '.', '.', '.', ')', ' ', '{', '\n'] ∧ fragVaRetDecl = [' ', 'r', 'e', 't', ';', '\n'] ∧
+    fragVaListDecl = ['v', 'a', '_', 'l', 'i', 's', 't', ' ', 'a', 'p', ';', '\n', '\n'] ∧ fragVaStartPre = ['v', 'a', '_', 's', 't', 'a', 'r', 't', '(', 'a', 'p', ',', ' '] ∧
+    fragVaStartPost = [')', ';', '\n'] ∧ fragVaAssign = ['r', 'e', 't', ' ', '=', ' '] ∧ fragVaCallOpen = ['('] ∧
+    fragVaAp = ['a', 'p'] ∧ fragVaCallClose = [')', ';', '\n'] ∧ fragVaEnd = ['v', 'a', '_', 'e', 'n', 'd', '(', 'a', 'p', ')', ';', '\n'] ∧
+    fragVaReturn = ['r', 'e', 't', 'u', 'r', 'n', ' ', 'r', 'e', 't', ';', '\n'] ∧
+    vaMaxArgsNeverWrapped = 1 ∧ vaBuiltinName = ['_', '_', 'b', 'u', 'i', 'l', 't', 'i', 'n', '_', 'v', 'a', '_', 'l', 'i', 's', 't'] := by
+  decide
+
+/-- the two variadic golden wrappers of the test-suite
+    (bindgen-tests/tests/expectations/tests/generated/wrap_static_fns.c) -/
+theorem C16_va_golden_lines (a : Bool) :
+    let ps : Params := .cons (some ['i']) wInt (.cons (some ['v', 'a']) (.base false (.named vaBuiltinName)) .nil)
+    wrapperTextV a vaApPlacement ['_', '_', 'e', 'x', 't', 'e', 'r', 'n']
+      { name := ['w', 'r', 'a', 'p', '_', 'a', 's', '_', 'v', 'a', 'r', 'i', 'a', 'd', 'i', 'c', '_', 'f', 'n', '1'], ret := wInt, params := ps } (some { newName := [], idx := 1 })
+      = .ok ['i', 'n', 't', ' ', 'w', 'r', 'a', 'p', '_', 'a', 's', '_', 'v', 'a', 'r', 'i', 'a', 'd', 'i', 'c', '_', 'f', 'n', '1', '_', '_', 'e', 'x', 't', 'e', 'r', 'n', '(', 'i', 'n', 't', ' ', 'i', ',', ' ', '.', '.', '.', ')', ' ', '{', '\n', ' ', ' ', ' ', ' ', 'i', 'n', 't', ' ', 'r', 'e', 't', ';', '\n', ' ', ' ', ' ', ' ', 'v', 'a', '_', 'l', 'i', 's', 't', ' ', 'a', 'p', ';', '\n', '\n', ' ', ' ', ' ', ' ', 'v', 'a', '_', 's', 't', 'a', 'r', 't', '(', 'a', 'p', ',', ' ', 'i', ')', ';', '\n', ' ', ' ', ' ', ' ', 'r', 'e', 't', ' ', '=', ' ', 'w', 'r', 'a', 'p', '_', 'a', 's', '_', 'v', 'a', 'r', 'i', 'a', 'd', 'i', 'c', '_', 'f', 'n', '1', '(', 'i', ',', ' ', 'a', 'p', ')', ';', '\n', ' ', ' ', ' ', ' ', 'v', 'a', '_', 'e', 'n', 'd', '(', 'a', 'p', ')', ';', '\n', ' ', ' ', ' ', ' ', 'r', 'e', 't', 'u', 'r', 'n', ' ', 'r', 'e', 't', ';', '\n', '}', '\n'] ∧
+    wrapperTextV a vaApPlacement ['_', '_', 'e', 'x', 't', 'e', 'r', 'n']
+      { name := ['w', 'r', 'a', 'p', '_', 'a', 's', '_', 'v', 'a', 'r', 'i', 'a', 'd', 'i', 'c', '_', 'f', 'n', '2'], ret := .base false .void, params := ps } (some { newName := [], idx := 1 })
+      = .ok ['v', 'o', 'i', 'd', ' ', 'w', 'r', 'a', 'p', '_', 'a', 's', '_', 'v', 'a', 'r', 'i', 'a', 'd', 'i', 'c', '_', 'f', 'n', '2', '_', '_', 'e', 'x', 't', 'e', 'r', 'n', '(', 'i', 'n', 't', ' ', 'i', ',', ' ', '.', '.', '.', ')', ' ', '{', '\n', ' ', ' ', ' ', ' ', 'v', 'a', '_', 'l', 'i', 's', 't', ' ', 'a', 'p', ';', '\n', '\n', ' ', ' ', ' ', ' ', 'v', 'a', '_', 's', 't', 'a', 'r', 't', '(', 'a', 'p', ',', ' ', 'i', ')', ';', '\n', ' ', ' ', ' ', ' ', 'w', 'r', 'a', 'p', '_', 'a', 's', '_', 'v', 'a', 'r', 'i', 'a', 'd', 'i', 'c', '_', 'f', 'n', '2', '(', 'i', ',', ' ', 'a', 'p', ')', ';', '\n', ' ', ' ', ' ', ' ', 'v', 'a', '_', 'e', 'n', 'd', '(', 'a', 'p', ')', ';', '\n', '}', '\n'] := by
+  cases a <;> exact ⟨by rfl, by rfl⟩
+
+/-! ### where the variadic wrapper does not compile -/
+
+/-- outside the clash region the locals the wrapper declares (`ret`, `ap`) are different from every
+    name its body uses from outside (its parameters and the wrapped function) -/
+theorem C16_va_locals_fresh_partial (f : Fn) (idx : Nat) (h : vaNameClash f idx = false) (n : Name)
+    (hn : n ∈ vaUsedNames f idx) : n ∉ vaLocals (!isVoid f.ret) := by
+  intro hl
+  simp only [vaNameClash, List.any_eq_false] at h
+  exact h n hn (by simpa using hl)
+
+/-- witness: `int f(int ret, va_list v)` — the wrapper declares `int ret;` next to its parameter `ret`
+    (C11 6.2.1p4: same scope; clang: "redefinition of 'ret'"); same for a parameter called `ap` -/
+theorem C16_va_fails_on_name_clash :
+    let ps : Params := .cons (some ['r', 'e', 't']) wInt (.cons (some ['v']) (.base false (.named ['v', 'a', '_', 'l', 'i', 's', 't'])) .nil)
+    vaNameClash { name := nF, ret := wInt, params := ps } 1 = true ∧
+    wrapperTextV true .insertAtVaListIdx ['_', '_', 'x'] { name := nF, ret := wInt, params := ps } (some { newName := [], idx := 1 })
+      = .ok ['i', 'n', 't', ' ', 'f', '_', '_', 'x', '(', 'i', 'n', 't', ' ', 'r', 'e', 't', ',', ' ', '.', '.', '.', ')', ' ', '{', '\n', ' ', ' ', ' ', ' ', 'i', 'n', 't', ' ', 'r', 'e', 't', ';', '\n', ' ', ' ', ' ', ' ', 'v', 'a', '_', 'l', 'i', 's', 't', ' ', 'a', 'p', ';', '\n', '\n', ' ', ' ', ' ', ' ', 'v', 'a', '_', 's', 't', 'a', 'r', 't', '(', 'a', 'p', ',', ' ', 'r', 'e', 't', ')', ';', '\n', ' ', ' ', ' ', ' ', 'r', 'e', 't', ' ', '=', ' ', 'f', '(', 'r', 'e', 't', ',', ' ', 'a', 'p', ')', ';', '\n', ' ', ' ', ' ', ' ', 'v', 'a', '_', 'e', 'n', 'd', '(', 'a', 'p', ')', ';', '\n', ' ', ' ', ' ', ' ', 'r', 'e', 't', 'u', 'r', 'n', ' ', 'r', 'e', 't', ';', '\n', '}', '\n'] ∧
+    vaNameClash { name := nF, ret := .base false .void,
+                  params := .cons (some ['v']) (.base false (.named ['v', 'a', '_', 'l', 'i', 's', 't'])) (.cons (some ['a', 'p']) wInt .nil) } 0 = true ∧
+    vaNameClash { name := nF, ret := .base false .void, params := ps } 1 = false := by
+  refine ⟨by decide, by rfl, by decide, by decide⟩
+
+/-- `va_list`, `va_start`, `va_end` are a typedef and macros of <stdarg.h>, not keywords: a header that
+    spells the parameter `__builtin_va_list` without including <stdarg.h> (as the test-suite's own
+    wrap-static-fns.h does) gets a wrapper that does not compile -/
+theorem C16_va_fails_without_stdarg :
+    (wordsOf fragVaListDecl).head? = some ['v', 'a', '_', 'l', 'i', 's', 't'] ∧
+    cTypeKeywords.contains ['v', 'a', '_', 'l', 'i', 's', 't'] = false ∧
+    ['v', 'a', '_', 's', 't', 'a', 'r', 't'] <+: fragVaStartPre ∧ ['v', 'a', '_', 'e', 'n', 'd'] <+: fragVaEnd ∧
+    vaBuiltinName ≠ ['v', 'a', '_', 'l', 'i', 's', 't'] := by
+  refine ⟨by decide, by decide, by decide, by decide, by decide⟩
 
 end BindgenModel.CDecl
